@@ -218,6 +218,56 @@ func (vn *VerifNode) Dump() string {
 	return sb.String()
 }
 
+// RawDump prints the node the handle refers to with ALL its storage, stale
+// contents included: <kind>(<childrenLen>,<prefixLen>,<prefix>,<raw keys>,[slots])
+// where every slot of the children array is listed: the child's id when the
+// slot's pointer is non-nil (also beyond childrenLen), "-" when it is nil.
+func (vn *VerifNode) RawDump() string {
+	var sb strings.Builder
+	slots := func(refs []nodeRef) {
+		sb.WriteString("[")
+		for i := range refs {
+			if i > 0 {
+				sb.WriteString(";")
+			}
+			if refs[i].pointer == nil {
+				sb.WriteString("-")
+			} else {
+				fmt.Fprintf(&sb, "%d", (*alphaLeafNode[int])(refs[i].pointer).value)
+			}
+		}
+		sb.WriteString("])")
+	}
+	hd := func(kind int, n *node) {
+		fmt.Fprintf(&sb, "%d(%d,%d,%s,", kind, n.childrenLen, n.prefixLen, verifHex(n.prefix[:]))
+	}
+	switch vn.ref.tag {
+	case nodeKind4:
+		n4 := (*node4)(vn.ref.pointer)
+		hd(4, &n4.node)
+		fmt.Fprintf(&sb, "%08x,", n4.keys)
+		slots(n4.children[:])
+	case nodeKind16:
+		n16 := (*node16)(vn.ref.pointer)
+		hd(16, &n16.node)
+		fmt.Fprintf(&sb, "%s,", verifHex(n16.keys[:]))
+		slots(n16.children[:])
+	case nodeKind48:
+		n48 := (*node48)(vn.ref.pointer)
+		hd(48, &n48.node)
+		fmt.Fprintf(&sb, "%s,", verifHex(n48.keys[:]))
+		slots(n48.children[:])
+	case nodeKind256:
+		n256 := (*node256)(vn.ref.pointer)
+		hd(256, &n256.node)
+		sb.WriteString(",")
+		slots(n256.children[:])
+	default:
+		fmt.Fprintf(&sb, "?tag%d", vn.ref.tag)
+	}
+	return sb.String()
+}
+
 // ---- diagnostics ---------------------------------------------------------------
 
 // VerifPoolAudit drains up to max nodes from every pool, reports how many were
